@@ -84,6 +84,10 @@ pub async fn generate_random_bytes(len: u64) -> Vec<u8> {
     }
     // Don't have to be cryptographically secure, since we only need a random hash and only check the signature of that in return
 
+    #[cfg(saito_verif)]
+    {
+        return crate::core::util::verif::random_bytes(len);
+    }
     #[cfg(not(test))]
     {
         let mut rng = thread_rng();
